@@ -687,11 +687,16 @@ void pade9(const gsl_matrix_complex *A, const gsl_matrix_complex *id,
   std::vector<double> b {17643225600., 8821612800., 2075673600., 302702400.,
                          30270240.,2162160., 110880., 3960., 90., 1.};
 
+  SQUIDS_THREAD_LOCAL gsl_matrix_complex_holder A8;
+  A8.reset(A->size1,A->size2);
+  gsl_blas_zgemm(CblasNoTrans,CblasNoTrans,GSL_COMPLEX_ONE,A2,A6,GSL_COMPLEX_ZERO,A8);
+
   // here we will use V as a temp to calculate U
   gsl_matrix_complex_mul(V,id,gsl_complex_rect(b[1],0.));
   gsl_matrix_complex_add(V,A2,gsl_complex_rect(b[3],0.));
   gsl_matrix_complex_add(V,A4,gsl_complex_rect(b[5],0.));
   gsl_matrix_complex_add(V,A6,gsl_complex_rect(b[7],0.));
+  gsl_matrix_complex_add(V,A8,gsl_complex_rect(b[9],0.));
   // this function sets the U matrix value
   gsl_blas_zgemm(CblasNoTrans,CblasNoTrans,GSL_COMPLEX_ONE,A,V,GSL_COMPLEX_ZERO,U);
 
@@ -700,6 +705,7 @@ void pade9(const gsl_matrix_complex *A, const gsl_matrix_complex *id,
   gsl_matrix_complex_add(V,A2,gsl_complex_rect(b[2],0.));
   gsl_matrix_complex_add(V,A4,gsl_complex_rect(b[4],0.));
   gsl_matrix_complex_add(V,A6,gsl_complex_rect(b[6],0.));
+  gsl_matrix_complex_add(V,A8,gsl_complex_rect(b[8],0.));
 
   return;
 }
